@@ -168,6 +168,8 @@ def gen_case(rng, max_ops=8, max_meas=5, allow_pairs=True, allow_corr=True, ops=
                                 round(rng.uniform(-5, 5), 3)])
                 if op == "pow" and rng.random() < 0.6:
                     c = float(rng.choice([2, 3, -1, -2, 4]))
+                if op in ("add", "sub") and rng.random() < 0.2:
+                    c = 0.0       # `0 + r` is what the builtin sum() starts with
                 leaf, bref = ("const", c), c
             else:
                 pv = rng.choice([1, -1]) * 10 ** rng.uniform(-1, 1)
@@ -242,7 +244,7 @@ def gen_case(rng, max_ops=8, max_meas=5, allow_pairs=True, allow_corr=True, ops=
                 if ref_eval_all(probe, trial) is not None:
                     revalue = [k, bits(trial[k])]
                     break
-    return {"revalue": revalue, "revise": revise, "nodes": nodes, "root": root, "vals": [bits(v) for v in vals],
+    return {"fault": bool(allow_revalue and rng.random() < 0.3), "revalue": revalue, "revise": revise, "nodes": nodes, "root": root, "vals": [bits(v) for v in vals],
             "errs": [bits(e) for e in errs], "rho": rho, "n_meas": n_meas, "raw": raw,
             "ops": used_ops, "ref_value": bits(ref[root])}
 
